@@ -1,7 +1,142 @@
 package c02
 
-import "wzverif/internal/kit"
+import (
+	"os"
+	"regexp"
+	"strings"
 
-var findings = []kit.Finding[Case]{}
+	"wzverif/internal/gen"
+	"wzverif/internal/kit"
+	"wzverif/internal/ops"
+)
 
-func fixedCases() []Case { return nil }
+func hasOp(c Case, kinds ...string) bool {
+	for _, l := range [][]ops.Op{c.Ops, c.Post} {
+		for _, o := range l {
+			for _, k := range kinds {
+				if o.K == k {
+					return true
+				}
+			}
+		}
+	}
+	return false
+}
+
+var (
+	dupRe    = regexp.MustCompile(`part=(\S+) id=(\S+) occurs \d+ times \(kinds \[([^\]]*)\]\)`)
+	openedRe = regexp.MustCompile(`opened\(ids=(\w+) styles=(\S+) ext=\d+\)`)
+	numIDRe  = regexp.MustCompile(`^rId[0-9]+$`)
+)
+
+// openedTag returns (ids, styles) of the foreign package the failing document descends from.
+func openedTag(detail string) (ids, styles string, ok bool) {
+	m := openedRe.FindStringSubmatch(detail)
+	if m == nil {
+		return "", "", false
+	}
+	return m[1], m[2], true
+}
+
+func rootNoteKind(s string) bool {
+	return strings.Contains(s, "footnotes") || strings.Contains(s, "endnotes") || strings.Contains(s, "settings")
+}
+
+var findings = []kit.Finding[Case]{
+	{
+		// D06: addFootnoteRelationship / addEndnoteRelationship / addSettingsRelationship append to the package-level list
+		ID: "KF-C02-notes-root", Clause: "C02.R",
+		Desc: "AddFootnote / AddEndnote / SetFootnoteConfig write the footnotes, endnotes and settings relationships into _rels/.rels (targets footnotes.xml / endnotes.xml do not resolve from the root; ids are count+1 and collide with existing root ids) instead of word/_rels/document.xml.rels",
+		Trigger: func(c Case, f kit.Failure) bool {
+			if !hasOp(c, "footnote", "endnote", "notecfg") || !strings.Contains(f.Detail, "part=_rels/.rels ") {
+				return false
+			}
+			switch f.Clause {
+			case "C02.R2", "C02.R3":
+				return strings.Contains(f.Detail, "kind=footnotes ") || strings.Contains(f.Detail, "kind=endnotes ") || strings.Contains(f.Detail, "kind=settings ")
+			case "C02.R1":
+				m := dupRe.FindStringSubmatch(f.Detail)
+				return m != nil && rootNoteKind(m[3])
+			}
+			return false
+		},
+	},
+	{
+		// D04: new id = "rId" + (number of known relationships + 2), whatever ids exist
+		ID: "KF-C02-id-alloc", Clause: "C02.R1",
+		Desc: "a relationship added to a document opened from a package whose ids are not the library's own dense numbering gets the id rId(count+2) even when that id is taken: duplicate Id in word/_rels/document.xml.rels",
+		Trigger: func(c Case, f kit.Failure) bool {
+			ids, _, ok := openedTag(f.Detail)
+			m := dupRe.FindStringSubmatch(f.Detail)
+			return c.Foreign != nil && ok && ids == "nondense" && m != nil && m[1] == relsMainDoc && numIDRe.MatchString(m[2]) && m[2] != "rId1"
+		},
+	},
+	{
+		// D05: the styles relationship is dropped on open and re-inserted as rId1 on save
+		ID: "KF-C02-styles-rid1", Clause: "C02.R",
+		Desc: "the styles relationship of an opened package is discarded and written back as rId1: its own id is lost and, when another relationship is called rId1, the id occurs twice",
+		Trigger: func(c Case, f kit.Failure) bool {
+			_, styles, ok := openedTag(f.Detail)
+			if c.Foreign == nil || !ok || styles == "rId1" {
+				return false
+			}
+			switch f.Clause {
+			case "C02.R1":
+				m := dupRe.FindStringSubmatch(f.Detail)
+				return m != nil && m[1] == relsMainDoc && m[2] == "rId1" && strings.Contains(m[3], "styles")
+			case "C02.R5":
+				return strings.Contains(f.Detail, "pre-existing relationship part="+relsMainDoc+" id="+styles+" kind=styles ")
+			}
+			return false
+		},
+	},
+	{
+		// D08: Relationship has no TargetMode field
+		ID: "KF-C02-targetmode", Clause: "C02.R",
+		Desc: "TargetMode is not modelled: an external hyperlink relationship of an opened package is written back without TargetMode=\"External\", i.e. as an internal relationship whose target is not in the package",
+		Trigger: func(c Case, f kit.Failure) bool {
+			if c.Foreign == nil || !c.Foreign.Hyperlink || !strings.Contains(f.Detail, "part="+relsMainDoc+" ") || !strings.Contains(f.Detail, "kind=hyperlink target=\""+extURL+"\"") {
+				return false
+			}
+			switch f.Clause {
+			case "C02.R2":
+				return true
+			case "C02.R5":
+				return strings.Contains(f.Detail, "mode=External became ")
+			}
+			return false
+		},
+	},
+}
+
+// ---- hand-written regression cases (judged like generated ones on every run) -----------------------------
+
+func img(pat int, name string) ops.Op {
+	return ops.Op{K: "image", Img: &gen.Img{Fmt: "png", W: 4, H: 3, Pat: pat, Name: name}, I: []int{0, 0, 0, 0}, F: []float64{0, 0}, S: []string{"", "", ""}}
+}
+
+func cellimg(pat, r, c int) ops.Op {
+	return ops.Op{K: "cellimg", Img: &gen.Img{Fmt: "jpeg", W: 5, H: 5, Pat: pat, Name: "b.jpg"}, I: []int{0, r, c}, F: []float64{10}}
+}
+
+func fixedCases() []Case {
+	if os.Getenv("C02_NOFIXED") != "" { // sensitivity runs: let the generated search find the breakage on its own
+		return nil
+	}
+	hdr := ops.Op{K: "header", I: []int{0}, S: []string{"head"}}
+	ftr := ops.Op{K: "footer", I: []int{1}, S: []string{"foot"}}
+	tbl := ops.Op{K: "table", I: []int{2, 2, 9000}}
+	li := ops.Op{K: "listitem", S: []string{"item"}, I: []int{1, 0, 1, 0}}
+	reopen := ops.Op{K: "reopen", B: []bool{false}}
+	tpl := ops.Op{K: "tpldoc", Data: &ops.Data{Imgs: map[string]gen.Img{"p": {Fmt: "gif", W: 6, H: 6, Pat: 9, Name: "d.gif"}}}}
+	return []Case{
+		// from scratch: every relationship-creating call once, with cycles in between
+		{Ops: []ops.Op{img(1, "a.png"), hdr, tbl, cellimg(2, 0, 0), li, reopen, ftr, img(3, "same.png"), cellimg(4, 1, 1), {K: "save"}, reopen, img(5, "c.JPEG")}},
+		// template image placeholder, then more images on the rendered document
+		{Ops: []ops.Op{{K: "para", S: []string{"{{#image p}}"}}, img(1, "a.png"), hdr, tpl, img(2, "a.png"), reopen, ftr}},
+		// the library's own numbering survives the foreign rewrite (control group: nothing may fail)
+		{Ops: []ops.Op{img(1, "a.png"), hdr, li}, Foreign: &Foreign{Scheme: "keep", Styles: "rId1", Extras: []string{"theme", "fontTable", "customXml"}, Root: 1, HdrRels: true},
+			Post: []ops.Op{img(2, "b.png"), ftr, tbl, cellimg(3, 0, 0), reopen, img(4, "c.png")}},
+		{Ops: []ops.Op{img(1, "a.png"), hdr, ftr}, Foreign: &Foreign{Scheme: "reverse", Styles: "rId1", StylesEnd: true, Root: 2}, Post: []ops.Op{img(2, "b.png"), li, img(3, "b.png")}},
+	}
+}
